@@ -6,7 +6,8 @@ from . import apienv
 
 PROP = "C09"
 RULE = ("cases = /source/v1 requests (module, offset, file) over the fixture binaries with debug info and generated Breakpad modules whose FILE records use plain, relative, Windows and "
-        "special-path (hg: / git: / s3: / cargo:) spellings: the files reported for that offset (outer and inline frames), files reported for OTHER offsets of the same module, arbitrary absolute and "
+        "special-path (hg: / git: / s3: / cargo:) spellings, one of them with function / line-record / inline-range boundaries on odd and even addresses and a different file on each side: the files reported for that offset (outer and inline frames), "
+        "files reported for OTHER offsets of the same module (among them the neighbouring bytes), arbitrary absolute and "
         "relative paths, prefixes / suffixes / case variants / '..'-, '//'-, '/./'- and trailing-slash decorations of permitted paths, whitespace-padded variants, respellings of special paths, "
         "modules that cannot be loaded, offsets without debug info. Observed: the locations the helper was asked to load because of the request (beyond what loading the symbol map touches) and the response class. "
         "non-trivial = the requested path is not listed for the offset although other paths are")
@@ -50,8 +51,13 @@ def gen(tier, rng, scale):
         mapped = [x for x in mods if x["debugName"].endswith(".pdb")]
         if mapped and rng.chance(1, 6):
             m = rng.choice(mapped)
+        odd = [x for x in mods if x["debugName"].startswith("genmod3")]
+        if odd and rng.chance(1, 4):
+            m = odd[0]                              # the module whose boundaries fall on odd and even addresses
         off = rng.choice(m["offsets"])
         other = rng.choice(m["offsets"])
+        if rng.chance(1, 2):
+            other = max(0, off + rng.choice([-1, -1, 1, -2, 2]))      # the files of the neighbouring byte (another function / line record / inline range)
         r = rng.below(100)
         kind = "listed" if r < 25 else "other-offset" if r < 40 else "variant" if r < 80 else "arbitrary"
         if rng.chance(1, 25):
